@@ -28,6 +28,19 @@ from vlib.batch import run_items
 HERE = os.path.dirname(os.path.abspath(__file__))
 
 
+def rerun_timeouts(results, items, cmd, workdir, env):
+    """A driver that exceeds its wall-clock limit on a loaded machine is not an observation about the item:
+    re-run such an item alone with a generous limit; only a reproducible timeout stays a crash."""
+    n = 0
+    for r in results:
+        if r.crash == "timeout":
+            n += 1
+            res, _ = run_items(cmd, [items[r.index]], os.path.join(workdir, "retry"), env, chunk=1, workers=1, per_item_timeout=300)
+            if res and not res[0].crash:
+                r.lines, r.crash, r.stderr = res[0].lines, None, ""
+    return n
+
+
 def fast_env(scratch, extra=None):
     """san_env with a small ASan quarantine: the default 256 MB quarantine makes every allocation of a long-running
     driver touch fresh pages (measured: 3.4x wall, 5x system time); 8 MB still catches use-after-free of recent frees."""
@@ -159,7 +172,7 @@ def main():
         item = r["replay"]["item"]
         wd = os.path.join(c.scratch, "r")
         os.makedirs(wd, exist_ok=True)
-        res, _ = run_items([exe], [item], wd, env, chunk=1, workers=1, per_item_timeout=20)
+        res, _ = run_items([exe], [item], wd, env, chunk=1, workers=1, per_item_timeout=200)
         bad = 0
         for x in res:
             for ln in x.lines:
@@ -171,7 +184,7 @@ def main():
                 bad += 1
         if r["replay"].get("second_process"):
             env2 = fast_env(os.path.join(c.scratch, "p2"), {"VERIF_PAD": "x" * 3001})
-            res2, _ = run_items([exe], [item], wd, env2, chunk=1, workers=1, per_item_timeout=20)
+            res2, _ = run_items([exe], [item], wd, env2, chunk=1, workers=1, per_item_timeout=200)
             v1 = [ln for x in res for ln in x.lines if ln.startswith("R ")]
             v2 = [ln for x in res2 for ln in x.lines if ln.startswith("R ")]
             print("second process:", v2)
@@ -180,7 +193,9 @@ def main():
         print("replay:", "VIOLATION" if bad else "ok")
         sys.exit(1 if bad else 0)
 
-    deadline = time.time() + c.budget(70, 1000)     # counted from here: a header edit rebuilds all of libocca first
+    # The work of a tier is a fixed, bounded set sized by CPU time (quick: 4-7 CPU-minutes = 15-25 s on 16 idle cores).
+    # The wall-clock deadline is only a safety net for a heavily loaded machine; it starts after the (possibly long) build.
+    deadline = time.time() + c.budget(600, 3000)
     items, n_s, n_x, n_v = gen_items(c.tier)
     wd1 = os.path.join(c.scratch, "p1")
     # 32 driver processes: UBSan reports a location once per process, a process start costs ~1 CPU-second
@@ -188,12 +203,14 @@ def main():
     if not ok1:
         # out of budget: fall back to reporting what was covered
         c.coverage["budget_hit"] = True
+    c.coverage["driver_timeouts_retried"] = rerun_timeouts(res1, items, [exe], wd1, env)
     vals1, st1 = judge(c, items, res1, True)
 
     # second, separately started set of processes: other environment block, other cwd, other chunking
     wd2 = os.path.join(c.scratch, "p2-" + "y" * 37)
     env2 = fast_env(os.path.join(c.scratch, "cache2"), {"VERIF_PAD": "x" * 3001, "VERIF_PAD2": "z" * 517})
     res2, ok2 = run_items([exe], items, wd2, env2, chunk=max(50, len(items) // 16 + 7), per_item_timeout=1.0, deadline=deadline)
+    rerun_timeouts(res2, items, [exe], wd2, env2)
     vals2, st2 = judge(c, items, res2, False)
     passes = [("asan second process", vals2)]
     if c.tier == "thorough":
@@ -220,7 +237,7 @@ def main():
     zero = sum(1 for v in vals1.values() if v.startswith("0" * 64))
     evaluated = len(vals1) + sum(1 for r in res1 if r.index not in vals1)
     c.vacuity(len(res1) == len(items) or not ok1, "every item produced a result record")
-    if ok1:
+    if ok1 and ok2:
         c.vacuity(len(vals1) + st1["crashes"] >= len(items) - st1["fails"], "every item reported a value")
         c.vacuity(zero >= 40, "the all-zero hash was reached by combination (a^a) at least 40 times, got %d" % zero)
         c.vacuity(distinct >= n_s // 2, "the %d byte strings produce many distinct hash values (distinct=%d); collisions are not a violation" % (n_s, distinct))
